@@ -570,7 +570,23 @@ def gen_response_case(g, tier, c17=None):
     c = Case(g, w)
     ops = c.ops
     lst = w.listeners[0]
-    for mi in range(g.rint(1, 4)):
+    nresp = g.rint(1, 4)
+
+    def schedule():
+        """now and then the SAME response once more (the 180 and the 200 of a transaction carry the same Via text; a
+        retransmission is byte-identical): the random choices are replayed"""
+        import random as _random
+        rep = _random.Random(g.rint(0, 2 ** 30))
+        for k in range(nresp):
+            st = (g.r.getstate(), g.sp.getstate())
+            yield k
+            if rep.random() < 0.35:
+                g.r.setstate(st[0]); g.sp.setstate(st[1])
+                g.count("resp_repeated")
+                yield k
+    occ = -1
+    for mi in schedule():
+        occ += 1
         n = g.pick([1, 2, 2, 2, 3, 4, 6])
         top = Via(lst.proto, lst.addr, lst.port, [("branch", "z9hG4bK" + g.word(ALNUM.upper(), 6, 10))])
         rest = []
@@ -621,7 +637,7 @@ def gen_response_case(g, tier, c17=None):
         g.count("resp_vias_%d" % n)
         peer = g.pick(["127.0.1.1", "127.0.1.2", "127.0.9.9"])
         if c17:
-            exp.append("spec=C17 %s %s.%d" % (c17[0], c17[1], mi))
+            exp.append("spec=C17 %s %s.%d" % (c17[0], c17[1], occ))
         ops.append("pipe raw p=0 from=%s peer=%s port=5080 tcp=- rx=0 msg=%s" % (lst.tok(), hx(peer), hx(data)) + "".join(" # " + e for e in exp))
     ops.append("pipe end")
     return ops
@@ -798,6 +814,10 @@ def gen_tcp_case(g, tier):
     steps = g.rint(4, 20 * nconn if tier != "quick" else 5 * nconn)
     branches = set()
     for _ in range(steps):
+        if pending and g.chance(0.12):
+            # a minute passes while transactions are open (the periodic sweep of the transport table comes due)
+            ops.append("pipe tick p=0 %d" % g.pick([61, 61, 120, 600]))
+            g.count("tcp_sweep_due")
         if pending and g.chance(0.5):
             t = g.pick(pending)
             final = g.chance(0.5)
